@@ -421,7 +421,16 @@ def generate(rng, profile='engine'):
             scn['twin_at'] = []
             scn['sched'] = [rng.randint(0, 3) for _ in range(rng.randint(1, 12))]
     gen_eintr(rng, scn)
+    gen_intr(rng, scn)
     return scn
+
+
+def gen_intr(rng, scn, p=0.06, nmax=20):
+    """An exception from outside (Ctrl-C, a signal handler that raises) abandons a call while it waits; the application
+    catches it and goes on using the object."""
+    if scn.get('transport') == 'popen' or rng.random() >= p:
+        return
+    scn['intr'] = sorted([rng.randint(1, nmax), rng.choice([1, 5, 50, 500, 5000])] for _ in range(rng.randint(1, 3)))
 
 
 # --------------------------------------------------------------- running
@@ -677,6 +686,11 @@ def evaluate(r, clauses=None):
         if W == -1:
             W = call['inst_sws']
         kind, val = call['outcome']
+        if kind == 'exc' and isinstance(val, KeyboardInterrupt):
+            # abandoned from outside while it waited: like a cancelled awaited call it must not have consumed anything,
+            # and everything it read is pending text of the next call
+            kind = 'cancel'
+            r.w.probe('blocking_call_interrupted_from_outside')
         prev_W, cur_W_holder[0] = cur_W_holder[0], (W or 0)
         res = model.call(plist, exact, W, chunks)
         ti = plist.index(TIMEOUT) if TIMEOUT in plist else -1
